@@ -1,6 +1,893 @@
-use crate::env::Out;
-use simcore::Step;
-pub struct ModelW;
-pub struct RealW;
-impl ModelW { pub fn new() -> Self { ModelW } pub fn apply(&mut self, _s: &Step) -> Out { Out::Skip } }
-impl RealW { pub fn new() -> Self { RealW } pub fn apply(&mut self, _s: &Step) -> Out { Out::Skip } }
+//! `wire` family: X25519 peers, Ed25519 signers, verifiers in every mode, a batch verifier and the
+//! total decoders, each existing twice: as the real library objects and as the reference model.
+
+#![allow(non_snake_case)]
+
+use crate::env::{chosen_clear, chosen_push, rng_prefix, set_dispatch, sha512_chunked, ChosenDigest, ChosenH, Obs, Out, SimRng};
+use crate::group::{sc_int, sc_real};
+use curve25519_dalek::edwards::EdwardsPoint;
+use curve25519_dalek::montgomery::MontgomeryPoint;
+use curve25519_dalek::scalar::Scalar;
+use ed25519_dalek::hazmat::{self, ExpandedSecretKey};
+use ed25519_dalek::{Signature, Signer, SigningKey, Verifier, VerifyingKey};
+use refmodel::ed::Pt;
+use refmodel::eddsa::{self, RealSha512, VerifyMode};
+use refmodel::fp::Fp;
+use refmodel::{arr32, sc, x25519 as mx};
+use sha2::Sha512;
+use signature::{DigestSigner, DigestVerifier};
+use simcore::{Step, B};
+use std::collections::{BTreeMap, VecDeque};
+use x25519_dalek::{EphemeralSecret, PublicKey, ReusableSecret, SharedSecret, StaticSecret};
+
+const LEGACY: bool = cfg!(feature = "legacy");
+const NPARTY: usize = 8;
+
+// =================================================================== model
+
+#[derive(Clone)]
+struct MX {
+    fl: u8,
+    /// the 32 secret bytes as the X25519 function receives them (before clamping)
+    k: [u8; 32],
+    used: bool,
+}
+
+#[derive(Clone)]
+struct MSigner {
+    /// Some(seed) for SigningKey-backed signers
+    seed: Option<[u8; 32]>,
+    a: refmodel::Sc,
+    prefix: [u8; 32],
+    pk: [u8; 32],
+    lower: [u8; 32],
+}
+
+#[derive(Clone)]
+struct MEntry {
+    m: Vec<u8>,
+    sig: [u8; 64],
+    key: [u8; 32],
+}
+
+pub struct ModelW {
+    x: Vec<Option<MX>>,
+    shared: BTreeMap<(u8, u8), [u8; 32]>,
+    s: Vec<Option<MSigner>>,
+    q: Vec<Vec<MEntry>>,
+}
+
+fn m_signer_from_seed(seed: &[u8; 32]) -> MSigner {
+    let h = eddsa::sha512(&[seed]);
+    let lower = arr32(&h[..32]);
+    let (a_cl, prefix) = eddsa::expand(seed);
+    MSigner { seed: Some(*seed), a: refmodel::Sc::from_bytes_mod_order(&a_cl), prefix, pk: eddsa::public_from_scalar_bytes(&a_cl), lower }
+}
+
+fn m_signer_from_expanded(b: &[u8; 64]) -> MSigner {
+    let lower = arr32(&b[..32]);
+    let a_cl = sc::clamp(&lower);
+    let a = refmodel::Sc::from_bytes_mod_order(&a_cl);
+    // the library derives the public key from the *reduced* scalar; same point since B has order l
+    MSigner { seed: None, a, prefix: arr32(&b[32..]), pk: eddsa::public_from_scalar_bytes(&a_cl), lower }
+}
+
+/// model verdict of one triple in a given mode
+fn m_verify(mode: u8, key: &[u8], m: &[u8], sig: &[u8], ctx: Option<&[u8]>, chosen: Option<&[u8; 64]>) -> (bool, bool, Option<bool>) {
+    let key_ok = key.len() == 32 && Pt::decode(&arr32(key)).is_some();
+    let sig_ok = sig.len() == 64;
+    if !key_ok || !sig_ok {
+        return (key_ok, sig_ok, None);
+    }
+    let key = arr32(key);
+    let sig = refmodel::arr64(sig);
+    let strict = matches!(mode, 2 | 4);
+    let vm = VerifyMode { strict, legacy: LEGACY };
+    let prehashed = matches!(mode, 3 | 4 | 6 | 8 | 10);
+    let verdict = if prehashed {
+        let ph = eddsa::sha512(&[m]);
+        let c = ctx.unwrap_or(b"");
+        if c.len() > 255 {
+            // with_context refuses; the plain prehashed verifiers are out of their documented domain
+            return (key_ok, sig_ok, Some(false));
+        }
+        eddsa::verify(&mut RealSha512, &key, &ph, &sig, Some(c), vm)
+    } else if mode == 7 {
+        let mut h = ChosenH(VecDeque::new());
+        if let Some(c) = chosen {
+            h.0.push_back(*c);
+        }
+        eddsa::verify(&mut h, &key, m, &sig, None, vm)
+    } else {
+        eddsa::verify(&mut RealSha512, &key, m, &sig, None, vm)
+    };
+    (key_ok, sig_ok, Some(verdict.ok()))
+}
+
+impl ModelW {
+    pub fn new() -> ModelW {
+        ModelW { x: vec![None; NPARTY], shared: BTreeMap::new(), s: vec![None; NPARTY], q: vec![Vec::new(); NPARTY] }
+    }
+
+    pub fn apply(&mut self, st: &Step) -> Out {
+        let mut o = Obs::new();
+        match st {
+            Step::XKey { p, fl, rng } => {
+                let k = arr32(&rng_prefix(&rng.b.0, 32));
+                let (kx, pubk) = if *fl == 6 {
+                    let sg = m_signer_from_seed(&k);
+                    // X25519 secret = unclamped lower half of SHA-512(seed); public = Montgomery form of A
+                    let pk_pt = Pt::decode(&sg.pk).unwrap();
+                    o.b("ed_pub", &sg.pk);
+                    (sg.lower, pk_pt.to_montgomery_u().to_bytes())
+                } else {
+                    (k, mx::x25519(&k, &mx::basepoint_u()))
+                };
+                o.b("pub", &pubk);
+                if matches!(fl, 2 | 3) {
+                    o.b("secret_bytes", &k);
+                }
+                self.x[*p as usize % NPARTY] = Some(MX { fl: *fl, k: kx, used: false });
+                self.shared.retain(|(a, b), _| *a != *p && *b != *p);
+            }
+            Step::XDh { p, pk, peer } => {
+                let pi = *p as usize % NPARTY;
+                let party = match &mut self.x[pi] {
+                    Some(x) => x,
+                    None => return Out::Skip,
+                };
+                if party.fl == 0 && party.used {
+                    return Out::Skip; // an ephemeral secret is consumed by its first use
+                }
+                party.used = true;
+                let sh = mx::x25519(&party.k, &pk.a32());
+                o.b("shared", &sh);
+                o.f("contributory", sh != [0u8; 32]);
+                if let Some(q) = peer {
+                    self.shared.insert((*p, *q), sh);
+                    if let Some(other) = self.shared.get(&(*q, *p)) {
+                        o.f("agree", *other == sh);
+                    }
+                }
+            }
+            Step::XRaw { k, u } => {
+                o.b("out", &mx::x25519(&k.a32(), &u.a32()));
+            }
+            Step::MMul { u, s } => {
+                o.b("out", &mx::mul_le(&u.a32(), &sc_int(s)));
+            }
+            Step::MBits { u, bits, n } => {
+                let all = refmodel::big::bits_msb_first(&bits.0.iter().rev().cloned().collect::<Vec<u8>>());
+                // bits.0 is read byte by byte, most significant bit first
+                let n = (*n as usize).min(all.len());
+                let r = mx::ladder_bits(&Fp::from_bytes(&u.a32()), &all[..n]);
+                o.b("out", &r.to_bytes());
+            }
+            Step::MToEd { u, sign } => {
+                let p = mx::to_edwards(&u.a32(), *sign & 1);
+                o.f("some", p.is_some());
+                if let Some(p) = p {
+                    o.b("enc", &p.encode());
+                }
+            }
+            Step::MEq { a, b } => {
+                let eq = Fp::from_bytes(&a.a32()) == Fp::from_bytes(&b.a32());
+                o.f("eq", eq);
+                // equal values must hash equally; unequal ones are not required to differ
+                if eq {
+                    o.f("hash_eq", true);
+                } else {
+                    o.any("hash_eq");
+                }
+                o.f("a_identity", Fp::from_bytes(&a.a32()).is_zero());
+            }
+            Step::SKey { s, how, b, rng } => {
+                let si = *s as usize % NPARTY;
+                let signer = match how {
+                    0 => {
+                        let stream = rng.as_ref().map(|r| r.b.0.clone()).unwrap_or_default();
+                        Some(m_signer_from_seed(&arr32(&rng_prefix(&stream, 32))))
+                    }
+                    1 => Some(m_signer_from_seed(&b.a32())),
+                    2 => {
+                        let sg = m_signer_from_seed(&b.a32());
+                        if b.0.len() == 64 && b.0[32..] == sg.pk[..] {
+                            Some(sg)
+                        } else {
+                            None
+                        }
+                    }
+                    3 => {
+                        if b.0.len() == 32 {
+                            Some(m_signer_from_seed(&b.a32()))
+                        } else {
+                            None
+                        }
+                    }
+                    4 => Some(m_signer_from_expanded(&b.a64())),
+                    _ => {
+                        if b.0.len() == 64 {
+                            Some(m_signer_from_expanded(&b.a64()))
+                        } else {
+                            None
+                        }
+                    }
+                };
+                o.f("ok", signer.is_some());
+                if let Some(sg) = &signer {
+                    o.b("pub", &sg.pk);
+                    if let Some(seed) = &sg.seed {
+                        o.b("seed", seed);
+                        let mut kp = seed.to_vec();
+                        kp.extend_from_slice(&sg.pk);
+                        o.b("keypair", &kp);
+                    } else {
+                        o.b("scalar", &sg.a.to_bytes());
+                        o.b("prefix", &sg.prefix);
+                    }
+                }
+                self.s[si] = signer;
+            }
+            Step::Sign { s, m, mode, ctx, ch: _ } => {
+                let sg = match &self.s[*s as usize % NPARTY] {
+                    Some(x) => x.clone(),
+                    None => return Out::Skip,
+                };
+                let mode = eff_sign_mode(*mode, sg.seed.is_some());
+                let c = ctx.as_ref().map(|c| c.0.as_slice());
+                let sig = match mode {
+                    0 | 1 | 4 => Some(eddsa::sign_expanded(&mut RealSha512, &sg.a, &sg.prefix, &sg.pk, &m.0, None)),
+                    _ => {
+                        let cc = c.unwrap_or(b"");
+                        if cc.len() > 255 {
+                            None
+                        } else {
+                            let ph = eddsa::sha512(&[&m.0]);
+                            Some(eddsa::sign_expanded(&mut RealSha512, &sg.a, &sg.prefix, &sg.pk, &ph, Some(cc)))
+                        }
+                    }
+                };
+                o.f("ok", sig.is_some());
+                if let Some(sig) = sig {
+                    o.b("sig", &sig);
+                }
+            }
+            Step::Ver { mode, key, m, sig, ctx, ch: _, chosen, d: _ } => {
+                let ch = chosen.as_ref().map(|c| c.a64());
+                let (key_ok, sig_ok, verdict) = m_verify(*mode, &key.0, &m.0, &sig.0, ctx.as_ref().map(|c| c.0.as_slice()), ch.as_ref());
+                o.f("key_ok", key_ok);
+                o.f("sig_ok", sig_ok);
+                if let Some(v) = verdict {
+                    o.f("accept", v);
+                }
+            }
+            Step::BQ { q, m, sig, key } => {
+                let key_ok = key.0.len() == 32 && Pt::decode(&key.a32()).is_some();
+                let sig_ok = sig.0.len() == 64;
+                o.f("key_ok", key_ok);
+                o.f("sig_ok", sig_ok);
+                if key_ok && sig_ok {
+                    self.q[*q as usize % NPARTY].push(MEntry { m: m.0.clone(), sig: sig.a64(), key: key.a32() });
+                }
+            }
+            Step::BFlush { q, var, arg, d: _, clear } => {
+                let qi = *q as usize % NPARTY;
+                let entries = self.q[qi].clone();
+                if *var == 4 {
+                    let (nm, ns, nk) = lens(arg, entries.len());
+                    if nm == ns && ns == nk {
+                        return Out::Skip; // nothing mismatched: not executed (state untouched)
+                    }
+                }
+                if *clear {
+                    self.q[qi].clear();
+                }
+                o.n("n", entries.len() as u64);
+                if *var == 4 {
+                    o.f("ok", false);
+                    o.f("consistent", true);
+                    return Out::Obs(o);
+                }
+                // classification
+                let mut in_domain = true;
+                let mut must_err = false;
+                let mut all_ok = true;
+                for e in &entries {
+                    let a = Pt::decode(&e.key).unwrap();
+                    let rb = arr32(&e.sig[..32]);
+                    let sb = arr32(&e.sig[32..]);
+                    let r = Pt::decode(&rb);
+                    let key_canon = a.encode() == e.key;
+                    let r_canon = r.map(|r| r.encode() == rb).unwrap_or(false);
+                    let s_rejected = if LEGACY { sb[31] & 224 != 0 } else { !refmodel::Sc::is_canonical_bytes(&sb) };
+                    if r.is_none() || s_rejected {
+                        must_err = true;
+                    }
+                    if !refmodel::Sc::is_canonical_bytes(&sb) {
+                        in_domain = false;
+                    }
+                    if !(key_canon && r_canon && a.is_torsion_free() && r.map(|r| r.is_torsion_free()).unwrap_or(false)) {
+                        in_domain = false;
+                    }
+                    if !eddsa::verify(&mut RealSha512, &e.key, &e.m, &e.sig, None, VerifyMode { strict: false, legacy: false }).ok() {
+                        all_ok = false;
+                    }
+                }
+                if must_err {
+                    o.f("ok", false);
+                    o.f("consistent", true);
+                } else if in_domain {
+                    o.f("ok", all_ok);
+                    o.f("consistent", true);
+                } else {
+                    // outside the property's domain only repetition is promised to be deterministic
+                    o.any("ok");
+                    if *var == 1 || *var == 0 {
+                        o.f("consistent", true);
+                    } else {
+                        o.any("consistent");
+                    }
+                }
+            }
+            Step::SConv { s } => {
+                let sg = match &self.s[*s as usize % NPARTY] {
+                    Some(x) if x.seed.is_some() => x.clone(),
+                    _ => return Out::Skip,
+                };
+                o.b("scalar_bytes", &sg.lower);
+                o.b("scalar", &sg.a.to_bytes());
+                let a = Pt::decode(&sg.pk).unwrap();
+                o.b("mont", &a.to_montgomery_u().to_bytes());
+                o.b("edw", &a.encode());
+                // X25519 with the converted secret against the converted public key of the base point
+                o.b("x_pub", &mx::x25519(&sg.lower, &mx::basepoint_u()));
+            }
+            Step::Decode { ty, b } => return m_decode(*ty, b),
+            _ => return Out::Skip,
+        }
+        Out::Obs(o)
+    }
+}
+
+fn lens(arg: &[u16], n: usize) -> (usize, usize, usize) {
+    let g = |i: usize| arg.get(i).map(|v| (*v as usize).min(n)).unwrap_or(n);
+    (g(0), g(1), g(2))
+}
+
+/// SigningKey-backed signers cannot use the hazmat-only modes and vice versa: map to the nearest
+fn eff_sign_mode(mode: u8, has_seed: bool) -> u8 {
+    if has_seed {
+        mode % 6
+    } else {
+        match mode % 6 {
+            0 | 1 | 4 => 4,
+            _ => 5,
+        }
+    }
+}
+
+fn m_decode(ty: u8, b: &B) -> Out {
+    let mut o = Obs::new();
+    match ty {
+        0 => {
+            let ok = refmodel::Sc::is_canonical_bytes(&b.a32());
+            o.f("some", ok);
+            if ok {
+                o.b("val", &b.a32());
+            }
+        }
+        1 => {
+            o.b("val", &refmodel::Sc::from_bytes_mod_order(&b.a32()).to_bytes());
+        }
+        2 => {
+            o.b("val", &refmodel::Sc::from_wide(&b.a64()).to_bytes());
+        }
+        3 => {
+            o.b("val", &refmodel::Sc::from_wide(&eddsa::sha512(&[&b.0])).to_bytes());
+        }
+        4 => {
+            o.b("val", &refmodel::Sc::from_wide(&b.a64()).to_bytes());
+        }
+        5 => {
+            let ok = b.0.len() == 32 && Pt::decode(&b.a32()).is_some();
+            o.f("ok", ok);
+            if ok {
+                o.b("bytes", &b.0);
+                o.f("weak", Pt::decode(&b.a32()).unwrap().is_small_order());
+            }
+        }
+        6 => {
+            let ok = b.0.len() == 32;
+            o.f("ok", ok);
+            if ok {
+                o.b("pub", &eddsa::public_key(&b.a32()));
+            }
+        }
+        7 | 19 => {
+            let ok = b.0.len() == 64;
+            o.f("ok", ok);
+            if ok {
+                o.b("bytes", &b.0);
+            }
+        }
+        8 => {
+            o.f("ok", b.0.len() == 64);
+        }
+        10 => {
+            // value not decided by C15: must terminate and land in the prime-order subgroup
+            o.f("valid", true);
+            o.any("enc");
+        }
+        15 => {
+            let ok = b.0.len() >= 64 && eddsa::public_key(&b.a32())[..] == b.0[32..64];
+            o.f("ok", ok);
+        }
+        _ => return Out::Skip,
+    }
+    Out::Obs(o)
+}
+
+// =================================================================== real
+
+enum RX {
+    Eph(Option<EphemeralSecret>, [u8; 32]),
+    Reu(ReusableSecret),
+    Sta(StaticSecret),
+    Raw([u8; 32]),
+    Mont([u8; 32]),
+    Ed(SigningKey),
+}
+
+enum RSigner {
+    Key(SigningKey),
+    Esk(ExpandedSecretKey, VerifyingKey),
+}
+
+pub struct RealW {
+    x: Vec<Option<RX>>,
+    shared: BTreeMap<(u8, u8), [u8; 32]>,
+    s: Vec<Option<RSigner>>,
+    q: Vec<Vec<(Vec<u8>, Signature, VerifyingKey)>>,
+}
+
+fn hash_of<T: std::hash::Hash>(v: &T) -> Vec<u8> {
+    /// a recording hasher: captures exactly the bytes fed to it
+    struct Rec(Vec<u8>);
+    impl std::hash::Hasher for Rec {
+        fn finish(&self) -> u64 {
+            0
+        }
+        fn write(&mut self, bytes: &[u8]) {
+            self.0.extend_from_slice(bytes);
+        }
+    }
+    let mut r = Rec(Vec::new());
+    v.hash(&mut r);
+    r.0
+}
+
+fn shared_obs(o: &mut Obs, sh: &SharedSecret) -> [u8; 32] {
+    o.b("shared", sh.as_bytes());
+    o.f("contributory", sh.was_contributory());
+    sh.to_bytes()
+}
+
+impl RealW {
+    pub fn new() -> RealW {
+        RealW {
+            x: (0..NPARTY).map(|_| None).collect(),
+            shared: BTreeMap::new(),
+            s: (0..NPARTY).map(|_| None).collect(),
+            q: (0..NPARTY).map(|_| Vec::new()).collect(),
+        }
+    }
+
+    pub fn apply(&mut self, st: &Step) -> Out {
+        let mut o = Obs::new();
+        match st {
+            Step::XKey { p, fl, rng } => {
+                let mut r = SimRng::new(&rng.b.0);
+                let k32 = arr32(&rng_prefix(&rng.b.0, 32));
+                let (party, pubk) = match fl {
+                    0 => {
+                        let s = EphemeralSecret::random_from_rng(&mut r);
+                        let pk = PublicKey::from(&s);
+                        (RX::Eph(Some(s), k32), pk.to_bytes())
+                    }
+                    1 => {
+                        let s = ReusableSecret::random_from_rng(&mut r);
+                        let pk = PublicKey::from(&s);
+                        (RX::Reu(s), pk.to_bytes())
+                    }
+                    2 => {
+                        let s = StaticSecret::random_from_rng(&mut r);
+                        let pk = PublicKey::from(&s);
+                        o.b("pub", pk.as_bytes());
+                        o.b("secret_bytes", &s.to_bytes());
+                        self.x[*p as usize % NPARTY] = Some(RX::Sta(s));
+                        self.shared.retain(|(a, b), _| *a != *p && *b != *p);
+                        return Out::Obs(o);
+                    }
+                    3 => {
+                        let s = StaticSecret::from(k32);
+                        let pk = PublicKey::from(&s);
+                        o.b("pub", pk.as_bytes());
+                        o.b("secret_bytes", s.as_bytes());
+                        self.x[*p as usize % NPARTY] = Some(RX::Sta(s));
+                        self.shared.retain(|(a, b), _| *a != *p && *b != *p);
+                        return Out::Obs(o);
+                    }
+                    4 => (RX::Raw(k32), x25519_dalek::x25519(k32, x25519_dalek::X25519_BASEPOINT_BYTES)),
+                    5 => (RX::Mont(k32), MontgomeryPoint::mul_base_clamped(k32).to_bytes()),
+                    _ => {
+                        let sk = SigningKey::from_bytes(&k32);
+                        let vk = sk.verifying_key();
+                        o.b("ed_pub", vk.as_bytes());
+                        let pk = vk.to_montgomery().to_bytes();
+                        (RX::Ed(sk), pk)
+                    }
+                };
+                o.b("pub", &pubk);
+                self.x[*p as usize % NPARTY] = Some(party);
+                self.shared.retain(|(a, b), _| *a != *p && *b != *p);
+            }
+            Step::XDh { p, pk, peer } => {
+                let pi = *p as usize % NPARTY;
+                let their = PublicKey::from(pk.a32());
+                let sh: [u8; 32] = match &mut self.x[pi] {
+                    None => return Out::Skip,
+                    Some(RX::Eph(s, _)) => match s.take() {
+                        None => return Out::Skip,
+                        Some(s) => shared_obs(&mut o, &s.diffie_hellman(&their)),
+                    },
+                    Some(RX::Reu(s)) => shared_obs(&mut o, &s.diffie_hellman(&their)),
+                    Some(RX::Sta(s)) => shared_obs(&mut o, &s.diffie_hellman(&their)),
+                    Some(RX::Raw(k)) => {
+                        let out = x25519_dalek::x25519(*k, pk.a32());
+                        o.b("shared", &out);
+                        o.f("contributory", out != [0u8; 32]);
+                        out
+                    }
+                    Some(RX::Mont(k)) => {
+                        let out = MontgomeryPoint(pk.a32()).mul_clamped(*k).to_bytes();
+                        o.b("shared", &out);
+                        o.f("contributory", out != [0u8; 32]);
+                        out
+                    }
+                    Some(RX::Ed(sk)) => {
+                        let s = StaticSecret::from(sk.to_scalar_bytes());
+                        shared_obs(&mut o, &s.diffie_hellman(&their))
+                    }
+                };
+                if let Some(q) = peer {
+                    self.shared.insert((*p, *q), sh);
+                    if let Some(other) = self.shared.get(&(*q, *p)) {
+                        o.f("agree", *other == sh);
+                    }
+                }
+            }
+            Step::XRaw { k, u } => {
+                o.b("out", &x25519_dalek::x25519(k.a32(), u.a32()));
+            }
+            Step::MMul { u, s } => {
+                let k = sc_real(s);
+                let p = MontgomeryPoint(u.a32());
+                let r1 = &p * &k;
+                let r2 = &k * &p;
+                let mut r3 = p;
+                r3 *= &k;
+                o.b("out", r1.as_bytes());
+                if r1.as_bytes() != r2.as_bytes() || r1.as_bytes() != r3.as_bytes() {
+                    o.f("paths_disagree", true);
+                }
+            }
+            Step::MBits { u, bits, n } => {
+                let mut v = Vec::new();
+                for byte in &bits.0 {
+                    for j in (0..8).rev() {
+                        v.push((byte >> j) & 1 == 1);
+                    }
+                }
+                v.truncate(*n as usize);
+                let r = MontgomeryPoint(u.a32()).mul_bits_be(v.into_iter());
+                o.b("out", r.as_bytes());
+            }
+            Step::MToEd { u, sign } => {
+                let p = MontgomeryPoint(u.a32()).to_edwards(*sign & 1);
+                o.f("some", p.is_some());
+                if let Some(p) = p {
+                    o.b("enc", p.compress().as_bytes());
+                }
+            }
+            Step::MEq { a, b } => {
+                use curve25519_dalek::traits::IsIdentity;
+                use subtle::ConstantTimeEq;
+                let (pa, pb) = (MontgomeryPoint(a.a32()), MontgomeryPoint(b.a32()));
+                let eq = pa == pb;
+                if eq != bool::from(pa.ct_eq(&pb)) {
+                    o.f("eq_inconsistent", true);
+                }
+                o.f("eq", eq);
+                let he = hash_of(&pa) == hash_of(&pb) && hash_of(&PublicKey::from(a.a32())) == hash_of(&PublicKey::from(b.a32()));
+                o.f("hash_eq", he);
+                o.f("a_identity", pa.is_identity());
+            }
+            Step::SKey { s, how, b, rng } => {
+                let si = *s as usize % NPARTY;
+                let signer: Option<RSigner> = match how {
+                    0 => {
+                        let stream = rng.as_ref().map(|r| r.b.0.clone()).unwrap_or_default();
+                        let mut r = SimRng::new(&stream);
+                        Some(RSigner::Key(SigningKey::generate(&mut r)))
+                    }
+                    1 => Some(RSigner::Key(SigningKey::from_bytes(&b.a32()))),
+                    2 => SigningKey::from_keypair_bytes(&b.a64()).ok().map(RSigner::Key),
+                    3 => SigningKey::try_from(&b.0[..]).ok().map(RSigner::Key),
+                    4 => {
+                        let esk = ExpandedSecretKey::from_bytes(&b.a64());
+                        let vk = VerifyingKey::from(&esk);
+                        Some(RSigner::Esk(esk, vk))
+                    }
+                    _ => ExpandedSecretKey::from_slice(&b.0).ok().map(|esk| {
+                        let vk = VerifyingKey::from(&esk);
+                        RSigner::Esk(esk, vk)
+                    }),
+                };
+                o.f("ok", signer.is_some());
+                match &signer {
+                    Some(RSigner::Key(sk)) => {
+                        o.b("pub", sk.verifying_key().as_bytes());
+                        o.b("seed", &sk.to_bytes());
+                        o.b("keypair", &sk.to_keypair_bytes());
+                    }
+                    Some(RSigner::Esk(esk, vk)) => {
+                        o.b("pub", vk.as_bytes());
+                        o.b("scalar", esk.scalar.as_bytes());
+                        o.b("prefix", &esk.hash_prefix);
+                    }
+                    None => {}
+                }
+                self.s[si] = signer;
+            }
+            Step::Sign { s, m, mode, ctx, ch } => {
+                let sg = match &self.s[*s as usize % NPARTY] {
+                    Some(x) => x,
+                    None => return Out::Skip,
+                };
+                let c = ctx.as_ref().map(|c| c.0.as_slice());
+                let has_seed = matches!(sg, RSigner::Key(_));
+                let mode = eff_sign_mode(*mode, has_seed);
+                let sig: Option<Signature> = match (sg, mode) {
+                    (RSigner::Key(sk), 0) => Some(sk.sign(&m.0)),
+                    (RSigner::Key(sk), 1) => sk.try_sign(&m.0).ok(),
+                    (RSigner::Key(sk), 2) => sk.sign_prehashed(sha512_chunked(&m.0, ch), c).ok(),
+                    (RSigner::Key(sk), 3) => match c {
+                        Some(cv) => match sk.with_context(cv) {
+                            Ok(cx) => cx.try_sign_digest(sha512_chunked(&m.0, ch)).ok(),
+                            Err(_) => None,
+                        },
+                        None => DigestSigner::try_sign_digest(sk, sha512_chunked(&m.0, ch)).ok(),
+                    },
+                    (RSigner::Key(sk), 4) => {
+                        let esk = ExpandedSecretKey::from(&sk.to_bytes());
+                        Some(hazmat::raw_sign::<Sha512>(&esk, &m.0, &sk.verifying_key()))
+                    }
+                    (RSigner::Key(sk), _) => {
+                        let esk = ExpandedSecretKey::from(&sk.to_bytes());
+                        hazmat::raw_sign_prehashed::<Sha512, Sha512>(&esk, sha512_chunked(&m.0, ch), &sk.verifying_key(), c).ok()
+                    }
+                    (RSigner::Esk(esk, vk), 4) => Some(hazmat::raw_sign::<Sha512>(esk, &m.0, vk)),
+                    (RSigner::Esk(esk, vk), _) => hazmat::raw_sign_prehashed::<Sha512, Sha512>(esk, sha512_chunked(&m.0, ch), vk, c).ok(),
+                };
+                o.f("ok", sig.is_some());
+                if let Some(sig) = sig {
+                    o.b("sig", &sig.to_bytes());
+                }
+            }
+            Step::Ver { mode, key, m, sig, ctx, ch, chosen, d } => {
+                let vk = VerifyingKey::try_from(&key.0[..]).ok();
+                let sg = Signature::from_slice(&sig.0).ok();
+                o.f("key_ok", vk.is_some());
+                o.f("sig_ok", sg.is_some());
+                if let (Some(vk), Some(sg)) = (vk, sg) {
+                    let c = ctx.as_ref().map(|c| c.0.as_slice());
+                    set_dispatch(*d);
+                    let too_long = c.map(|c| c.len() > 255).unwrap_or(false);
+                    let acc: bool = match mode {
+                        0 => vk.verify(&m.0, &sg).is_ok(),
+                        1 => Verifier::verify(&vk, &m.0, &sg).is_ok(),
+                        2 => vk.verify_strict(&m.0, &sg).is_ok(),
+                        3 if !too_long => vk.verify_prehashed(sha512_chunked(&m.0, ch), c, &sg).is_ok(),
+                        4 if !too_long => vk.verify_prehashed_strict(sha512_chunked(&m.0, ch), c, &sg).is_ok(),
+                        5 => hazmat::raw_verify::<Sha512>(&vk, &m.0, &sg).is_ok(),
+                        6 if !too_long => hazmat::raw_verify_prehashed::<Sha512, Sha512>(&vk, sha512_chunked(&m.0, ch), c, &sg).is_ok(),
+                        7 => {
+                            chosen_clear();
+                            if let Some(cb) = chosen {
+                                chosen_push(cb.a64());
+                            }
+                            let r = hazmat::raw_verify::<ChosenDigest>(&vk, &m.0, &sg).is_ok();
+                            chosen_clear();
+                            r
+                        }
+                        8 => match vk.with_context(c.unwrap_or(b"")) {
+                            Ok(cx) => cx.verify_digest(sha512_chunked(&m.0, ch), &sg).is_ok(),
+                            Err(_) => false,
+                        },
+                        10 if c.is_none() => DigestVerifier::verify_digest(&vk, sha512_chunked(&m.0, ch), &sg).is_ok(),
+                        10 if !too_long => vk.verify_prehashed(sha512_chunked(&m.0, ch), c, &sg).is_ok(),
+                        // contexts longer than 255 bytes are outside the documented domain of the plain
+                        // prehashed verifiers (DESIGN section 6); not called
+                        _ => false,
+                    };
+                    set_dispatch(0);
+                    o.f("accept", acc);
+                }
+            }
+            Step::BQ { q, m, sig, key } => {
+                let vk = VerifyingKey::try_from(&key.0[..]).ok();
+                let sg = Signature::from_slice(&sig.0).ok();
+                o.f("key_ok", vk.is_some());
+                o.f("sig_ok", sg.is_some());
+                if let (Some(vk), Some(sg)) = (vk, sg) {
+                    self.q[*q as usize % NPARTY].push((m.0.clone(), sg, vk));
+                }
+            }
+            Step::BFlush { q, var, arg, d, clear } => {
+                let qi = *q as usize % NPARTY;
+                let entries = self.q[qi].clone();
+                if *var == 4 {
+                    let (nm, ns, nk) = lens(arg, entries.len());
+                    if nm == ns && ns == nk {
+                        return Out::Skip;
+                    }
+                }
+                if *clear {
+                    self.q[qi].clear();
+                }
+                o.n("n", entries.len() as u64);
+                let run = |es: &[(Vec<u8>, Signature, VerifyingKey)], nm: usize, ns: usize, nk: usize| -> bool {
+                    let msgs: Vec<&[u8]> = es.iter().take(nm).map(|e| e.0.as_slice()).collect();
+                    let sigs: Vec<Signature> = es.iter().take(ns).map(|e| e.1).collect();
+                    let keys: Vec<VerifyingKey> = es.iter().take(nk).map(|e| e.2).collect();
+                    ed25519_dalek::verify_batch(&msgs, &sigs, &keys).is_ok()
+                };
+                let n = entries.len();
+                set_dispatch(*d);
+                if *var == 4 {
+                    let (nm, ns, nk) = lens(arg, n);
+                    if nm == ns && ns == nk {
+                        set_dispatch(0);
+                        return Out::Skip;
+                    }
+                    let ok = run(&entries, nm, ns, nk);
+                    set_dispatch(0);
+                    o.f("ok", ok);
+                    o.f("consistent", true);
+                    return Out::Obs(o);
+                }
+                let base = run(&entries, n, n, n);
+                let consistent = match var {
+                    1 => run(&entries, n, n, n) == base,
+                    2 => {
+                        let mut perm: Vec<(Vec<u8>, Signature, VerifyingKey)> = Vec::new();
+                        let mut used = vec![false; n];
+                        for a in arg {
+                            let i = *a as usize;
+                            if i < n && !used[i] {
+                                used[i] = true;
+                                perm.push(entries[i].clone());
+                            }
+                        }
+                        for i in 0..n {
+                            if !used[i] {
+                                perm.push(entries[i].clone());
+                            }
+                        }
+                        run(&perm, n, n, n) == base
+                    }
+                    3 if n > 0 => {
+                        let mut dup = entries.clone();
+                        let j = arg.first().map(|a| *a as usize % n).unwrap_or(0);
+                        dup.push(entries[j].clone());
+                        run(&dup, n + 1, n + 1, n + 1) == base
+                    }
+                    _ => true,
+                };
+                set_dispatch(0);
+                o.f("ok", base);
+                o.f("consistent", consistent);
+            }
+            Step::SConv { s } => {
+                let sk = match &self.s[*s as usize % NPARTY] {
+                    Some(RSigner::Key(sk)) => sk,
+                    _ => return Out::Skip,
+                };
+                let sb = sk.to_scalar_bytes();
+                o.b("scalar_bytes", &sb);
+                o.b("scalar", sk.to_scalar().as_bytes());
+                o.b("mont", sk.verifying_key().to_montgomery().as_bytes());
+                o.b("edw", sk.verifying_key().to_edwards().compress().as_bytes());
+                o.b("x_pub", PublicKey::from(&StaticSecret::from(sb)).as_bytes());
+            }
+            Step::Decode { ty, b } => return r_decode(*ty, b),
+            _ => return Out::Skip,
+        }
+        Out::Obs(o)
+    }
+}
+
+fn r_decode(ty: u8, b: &B) -> Out {
+    let mut o = Obs::new();
+    match ty {
+        0 => {
+            let s: Option<Scalar> = Scalar::from_canonical_bytes(b.a32()).into();
+            o.f("some", s.is_some());
+            if let Some(s) = s {
+                o.b("val", s.as_bytes());
+            }
+        }
+        1 => {
+            o.b("val", Scalar::from_bytes_mod_order(b.a32()).as_bytes());
+        }
+        2 => {
+            o.b("val", Scalar::from_bytes_mod_order_wide(&b.a64()).as_bytes());
+        }
+        3 => {
+            o.b("val", Scalar::hash_from_bytes::<Sha512>(&b.0).as_bytes());
+        }
+        4 => {
+            chosen_clear();
+            chosen_push(b.a64());
+            let s = Scalar::from_hash(<ChosenDigest as digest::Digest>::new());
+            chosen_clear();
+            o.b("val", s.as_bytes());
+        }
+        5 => {
+            let vk = VerifyingKey::try_from(&b.0[..]).ok();
+            o.f("ok", vk.is_some());
+            if let Some(vk) = vk {
+                o.b("bytes", &vk.to_bytes());
+                o.f("weak", vk.is_weak());
+            }
+        }
+        6 => {
+            let sk = SigningKey::try_from(&b.0[..]).ok();
+            o.f("ok", sk.is_some());
+            if let Some(sk) = sk {
+                o.b("pub", sk.verifying_key().as_bytes());
+            }
+        }
+        7 => {
+            let s = Signature::from_slice(&b.0).ok();
+            o.f("ok", s.is_some());
+            if let Some(s) = s {
+                o.b("bytes", &s.to_bytes());
+            }
+        }
+        19 => {
+            let s = Signature::try_from(&b.0[..]).ok();
+            o.f("ok", s.is_some());
+            if let Some(s) = s {
+                o.b("bytes", &s.to_bytes());
+            }
+        }
+        8 => {
+            let ok = ExpandedSecretKey::from_slice(&b.0).is_ok() && ExpandedSecretKey::try_from(&b.0[..]).is_ok();
+            o.f("ok", ok);
+        }
+        10 => {
+            #[allow(deprecated)]
+            let p = EdwardsPoint::nonspec_map_to_curve::<Sha512>(&b.0);
+            let on_curve = refmodel::ed::check_extended(&curve25519_dalek::verif_hooks::edwards_coords(&p)).is_ok();
+            o.f("valid", on_curve && p.is_torsion_free());
+            o.b("enc", p.compress().as_bytes());
+        }
+        15 => {
+            let ok = b.0.len() >= 64 && SigningKey::from_keypair_bytes(&b.a64()).is_ok();
+            o.f("ok", ok);
+        }
+        _ => return Out::Skip,
+    }
+    Out::Obs(o)
+}
